@@ -1,0 +1,25 @@
+//go:build verif
+
+// Copyright 2025 StreamNative, Inc.
+//
+// Licensed under the Apache License, Version 2.0 (the "License");
+// you may not use this file except in compliance with the License.
+// You may obtain a copy of the License at
+//
+//     http://www.apache.org/licenses/LICENSE-2.0
+//
+// Unless required by applicable law or agreed to in writing, software
+// distributed under the License is distributed on an "AS IS" BASIS,
+// WITHOUT WARRANTIES OR CONDITIONS OF ANY KIND, either express or implied.
+// See the License for the specific language governing permissions and
+// limitations under the License.
+
+package controllers
+
+import "github.com/oxia-db/oxia/coordinator/model"
+
+// VerifReplaceInList exposes the ensemble replacement used by shardController.swapNode to the
+// external verification harness (build tag verif only).
+func VerifReplaceInList(list []model.Server, oldServer, newServer model.Server) []model.Server {
+	return replaceInList(list, oldServer, newServer)
+}
